@@ -1,12 +1,14 @@
 /-
 C12 - the LCS helper returns a valid, ordered, maximum-length common subsequence.
 
-Property theorems only; helper lemmas are in `Proofs/Lcs.lean`.  The model
+Property theorems only; helper lemmas are in `Proofs/Lcs.lean` (validity, order, totality)
+and `Proofs/LcsMax.lean` (maximality: Myers' furthest-reaching argument).  The model
 (`Model/Lcs.lean`) mirrors `utils.longest_common_subsequence` statement by statement,
 for an arbitrary relation `eq : Nat → Nat → Bool` on the indices of the two sequences
 (nothing about reflexivity, symmetry or transitivity is assumed) and arbitrary lengths.
 -/
 import XmlDiffModel.Proofs.Lcs
+import XmlDiffModel.Proofs.LcsMax
 
 namespace XmlDiffModel
 open Lcs
@@ -28,6 +30,14 @@ theorem C12_increasing (eq : Nat → Nat → Bool) (n m : Nat) (ps : Pairs) (h :
     ps.Pairwise (fun a b => a.1 < b.1 ∧ a.2 < b.2) := by
   obtain ⟨ps', h', hi, _⟩ := lcs_spec eq n m
   rw [h] at h'; cases h'; exact hi
+
+/-- **Maximum length**: whatever strictly increasing list of in-range related pairs one picks,
+it is not longer than the returned one.  (For every relation, without reflexivity, symmetry
+or transitivity, and every pair of lengths.) -/
+theorem C12_maximum (eq : Nat → Nat → Bool) (n m : Nat) (ps : Pairs) (h : lcs eq n m = .ok ps)
+    (qs : Pairs) (hinc : qs.Pairwise (fun a b => a.1 < b.1 ∧ a.2 < b.2))
+    (hv : ∀ p ∈ qs, p.1 < n ∧ p.2 < m ∧ eq p.1 p.2 = true) : qs.length ≤ ps.length :=
+  lcs_max eq n m ps h qs hinc hv
 
 /-- Non-vacuity: a relation that is neither reflexive nor symmetric, on which the main
 loop runs three rounds. -/
